@@ -332,7 +332,7 @@ func checkC35(c *Check) {
 			tg, dec := regexp.QuoteMeta(m[1]), regexp.QuoteMeta(m[2])
 			roles = regexp.MustCompile(`call copy recv=\(buf\[(L\d+:\w+):\], `+tg+`\[:`+dec+`\]\) -> \[(L\d+:\w+)\]\n\s+assign L\d+:\w+ \+= L\d+:\w+\n`).MatchString(raw) &&
 				regexp.MustCompile(`\n\s+assign item\.buf = `+tg+`\n`).MatchString(raw) && regexp.MustCompile(`\n\s+assign item\.end = `+dec+`\n`).MatchString(raw) &&
-				regexp.MustCompile(`assign L\d+:\w+ \+= `+dec+`\n\s+call copy recv=\(item\.buf\[:cap\(item\.buf\)\], `+tg+`\[`+dec+`:\]\) -> \[(L\d+:\w+)\]\n\s+assign item\.buf = item\.buf\[:L\d+:\w+\]`).MatchString(raw)
+				regexp.MustCompile(`assign L\d+:\w+ \+= `+dec+`\n\s+call copy recv=\(item\.buf\[:cap\(item\.buf\)\], `+tg+`\[`+dec+`:\]\) -> \[(L\d+:\w+)\]\n(?:\s+assign [^\n]*\n)*?\s+assign item\.buf = item\.buf\[:L\d+:\w+\]`).MatchString(raw)
 		}
 		c.Ob("crypto/every-region-accounted", "cryptoReader.Read", buffered && direct && roles, pos, fmt.Sprintf("buffered path: decrypted prefix delivered, buf=target, begin=delivered, end=decrypt (tail kept in place)=%v; direct path: decrypt bytes delivered, target[decrypt:] saved to buf, begin=end=0=%v; operands are the target/decrypt locals=%v", buffered, direct, roles))
 	}
